@@ -330,6 +330,18 @@ func intrinsicTable() map[string]intrinsic {
 		return nil
 	}
 
+	// ---- internal/bytealg.MakeNoZero (runtime-provided; used by bytes.Repeat, strings.Builder ...): a byte slice of
+	// the given concrete length; the contents are unspecified until written, modelled as zero like the runtime does
+	// for small sizes ----
+	t["internal/bytealg.MakeNoZero"] = func(w *Worker, fn *ssa.Function, a []Value) Value {
+		n := w.concInt(a[0], "MakeNoZero length")
+		s := make(SliceV, n)
+		for i := range s {
+			s[i] = w.tt.BV(0, 8)
+		}
+		return s
+	}
+
 	// ---- sort.Ints ----
 	t["sort.Ints"] = func(w *Worker, fn *ssa.Function, a []Value) Value {
 		s := a[0].(SliceV)
